@@ -36,7 +36,8 @@ class Gen:
         if t == "%":
             return ("lit", "%", r.choice([0, 1, 2, 3, 4, 5, 7, 10, -1, -2, -3, 12, 100, r.randrange(-20, 21)]))
         if t == "&":
-            return ("lit", "&", r.choice([40000, 65536, 100000, -40000, 70000, 32768, -32769]))
+            # also values that a SINGLE cannot hold exactly (above 2^24)
+            return ("lit", "&", r.choice([40000, 65536, 100000, -40000, 70000, 32768, -32769, 16777217, 2147483647, -16777219]))
         k = r.choice([1, 2, 3, 5, 6, 7, 9, 10, 11, 13, -1, -3, -5, -6, 21, 30])
         den = r.choice([2, 4, 4, 8])
         v = Fraction(k, den)
